@@ -38,7 +38,7 @@ def main():
     demos = [f for f in os.listdir(sd) if f.endswith(".rs") or f.endswith(".c") or f.endswith(".py")]
     demo_rel = meta.get("demo_file")
     if not demo_rel:
-        demo_rel = ("capi/tests/" if "chewing_capi" in demo_cmd or "-p chewing_capi" in demo_cmd else "tests/") + demos[0]
+        demo_rel = ("capi/tests/" if "chewing_capi" in demo_cmd else "tools/tests/" if "chewing-cli" in demo_cmd else "tests/") + demos[0]
     ran = []
 
     def reset():
